@@ -346,5 +346,16 @@ Definition vcopy (a b : vstore) (t i : N) : vstore * vres :=
                   vs_keep := vs_keep b; vs_pending := vs_pending b |}, ROk)
   end.
 
+(* kvStoreSM.PrepareSnapshot on store b with peer a: nothing to do when b has a local backup of
+   (t,i); otherwise the peer's checkpoint directory is copied (RNoSrc: no peer has it) *)
+Definition vfetch (a b : vstore) (t i : N) : vstore * vres :=
+  match ck_lookup (vs_cks b) (enc_name t i) with
+  | Some _ => (b, ROk)
+  | None => match ck_lookup (vs_cks a) (enc_name t i) with
+            | None => (b, RNoSrc)
+            | Some _ => vcopy a b t i
+            end
+  end.
+
 Definition vinit (keep h : N) : vstore :=
   {| vs_val := h; vs_cks := []; vs_latest := 0; vs_keep := keep; vs_pending := None |}.
